@@ -1,6 +1,17 @@
 /-
-  Property C10 — property theorems only (helper lemmas live next to the model).
-  Stub: nothing claimed yet.
+  Property C10 — garbage collector: reclaimers run exactly once, never early, before stop returns.
+  Property theorems only; helper lemmas in Babylon/GC/Lemmas*.lean.
 -/
+import Babylon.GC.Model
+
 namespace Babylon.Properties.C10
+open Babylon.GC Babylon.Core
+
+/-- Generated obligation pinning the shape of the collector loop (the repair of DESIGN §7 #2): the loop
+goes on while the marker has not been seen **or** consumed tasks are still waiting, and a new batch
+is consumed only while running and when the previous one is exhausted. -/
+theorem gen_loop_shape :
+    Gen.GC.loopCond = Shape.loopCond ∧ Gen.GC.consumeCond = Shape.consumeCond ∧
+    Gen.GC.consumeBlock = Shape.consumeBlock ∧ Gen.GC.reclaimCall = Shape.reclaimCall := by decide
+
 end Babylon.Properties.C10
